@@ -3,6 +3,8 @@
  *   parsers aconf <maxlen> <start> <scratch> <out>   every string over {" ' \ space a \n < >} up to maxlen
  *   parsers inir  <n> <seed> <out>                   grammar-aware random INI documents (self/mutual references, nesting, long lines)
  *   parsers aconfr <n> <seed> <scratch> <out>        grammar-aware random Apache-style documents
+ *   parsers inif  <n> <seed> <scratchdir> <out>      INI files with @INCLUDE lines (present / missing / self- and mutually including files,
+ *                                                    absolute and relative names, over-long and padded lines) through qconfig_parse_file
  * Inputs live in exactly-sized heap buffers; every call runs under a watchdog; ${!cmd} can execute nothing
  * (link with --wrap=qsyscmd).  Records: {"fn":"ini"|"aconf","inp":[..],"n":entries|ret}. */
 #include "qlibc.h"
@@ -11,6 +13,7 @@
 #include <stdlib.h>
 #include <string.h>
 #include <unistd.h>
+#include <sys/stat.h>
 
 char *__wrap_qsyscmd(const char *cmd) { (void) cmd; return strdup("cmd-output"); }
 
@@ -30,6 +33,51 @@ static void run_ini(const unsigned char *in, size_t n) {
     if (t) t->free(t);
     free(s);
     rec("ini", in, n, cnt);
+}
+/* ---- files with include lines ---- */
+static void put_file(const char *dir, const char *name, const unsigned char *d, size_t n) {
+    char path[600]; snprintf(path, sizeof path, "%s/%s", dir, name);
+    FILE *f = fopen(path, "wb"); if (!f) _exit(2);
+    fwrite(d, 1, n, f); fclose(f);
+}
+static size_t gen_ini(unsigned char *x, size_t cap);
+static size_t gen_inif(unsigned char *x, size_t cap, const char *dir, const char *self) {
+    size_t n = 0; int parts = 1 + (int) (vh_rand() % 6);
+    for (int i = 0; i < parts; i++) {
+        char line[9000]; size_t l = 0;
+        unsigned r = vh_rand() % 12;
+        static const char *names[] = {"inc1.conf", "inc2.conf", "missing.conf", "", "  inc1.conf  ", "sub/../inc1.conf"};
+        if (r < 6) {
+            const char *nm = r == 5 ? self : names[vh_rand() % 6];
+            if (vh_rand() % 4 == 0) l = (size_t) snprintf(line, sizeof line, "@INCLUDE %s/%s", dir, nm);      /* absolute */
+            else l = (size_t) snprintf(line, sizeof line, "@INCLUDE %s", nm);
+            unsigned pad = vh_rand() % 5;
+            /* padding that brings the line close to and beyond PATH_MAX */
+            size_t want = pad == 0 ? 0 : pad == 1 ? 4070 + vh_rand() % 40 : pad == 2 ? 4090 + vh_rand() % 20 : pad == 3 ? vh_rand() % 300 : 5000 + vh_rand() % 3000;
+            while (l < want && l + 2 < sizeof line) line[l++] = (vh_rand() % 9) ? ' ' : '\t';
+            line[l++] = '\n';
+        } else if (r == 6) { l = (size_t) snprintf(line, sizeof line, " @INCLUDE inc1.conf\n"); }            /* not at the start of a line */
+        else if (r == 7) { l = (size_t) snprintf(line, sizeof line, "@INCLUDE "); size_t m = 4000 + vh_rand() % 200; while (l < m) line[l++] = 'n'; line[l++] = '\n'; }
+        else if (r == 8) { l = (size_t) snprintf(line, sizeof line, "@INCLUDE inc1.conf"); }                     /* last line without LF */
+        else { l = gen_ini((unsigned char *) line, 600); }
+        if (n + l < cap) { memcpy(x + n, line, l); n += l; }
+    }
+    return n;
+}
+static void run_inif(const char *dir, long idx) {
+    static unsigned char doc[70000], inc[70000];
+    char mkd[700]; snprintf(mkd, sizeof mkd, "%s/sub", dir); mkdir(mkd, 0700);
+    /* inc1 is plain or includes inc2; inc2 is plain or includes inc1 (mutual) or itself */
+    size_t l1 = (vh_rand() % 3) ? gen_ini(inc, 2000) : gen_inif(inc, 20000, dir, "inc2.conf"); put_file(dir, "inc1.conf", inc, l1);
+    size_t l2 = (vh_rand() % 3) ? gen_ini(inc, 2000) : gen_inif(inc, 20000, dir, "inc2.conf"); put_file(dir, "inc2.conf", inc, l2);
+    size_t n = gen_inif(doc, sizeof doc, dir, "main.conf"); put_file(dir, "main.conf", doc, n);
+    char path[700]; snprintf(path, sizeof path, "%s/main.conf", dir);
+    vh_where = "inif"; vh_step = idx; vh_watchdog(20);
+    qlisttbl_t *t = qconfig_parse_file(NULL, path, '=');
+    alarm(0);
+    long cnt = t ? (long) t->size(t) : -1;
+    if (t) t->free(t);
+    rec("ini", doc, n, cnt);
 }
 static QAC_CB(cb) { (void) data; (void) userdata; return NULL; }
 static qaconf_option_t OPTS[] = {
@@ -109,6 +157,11 @@ int main(int argc, char **argv) {
         int n = atoi(argv[2]); vh_srand((uint32_t) atoi(argv[3]) * 2246822519u + 7);
         vh_open(argv[5]);
         for (int i = 0; i < n; i++) { vh_step = i; size_t l = gen_aconf(big, sizeof big); run_aconf(big, l, argv[4], (int) (vh_rand() & 3)); }
+    } else if (!strcmp(argv[1], "inif") && argc >= 6) {
+        int n = atoi(argv[2]); vh_srand((uint32_t) atoi(argv[3]) * 3266489917u + 11);
+        mkdir(argv[4], 0700);
+        vh_open(argv[5]);
+        for (int i = 0; i < n; i++) run_inif(argv[4], i);
     } else return 2;
     vh_close();
     exit(0);
